@@ -34,10 +34,7 @@ func buildTarLayout(es []UEntry) *tarLayout {
 	l := &tarLayout{}
 	for _, e := range es {
 		tw.Flush()
-		h := &tar.Header{Name: e.Name, Typeflag: e.Typ, Linkname: e.Link, Mode: e.Mode, ModTime: time.Unix(e.Mtime, 0), Format: tar.FormatPAX}
-		if e.Typ == tar.TypeReg {
-			h.Size = int64(len(e.Body))
-		}
+		h := tarHeaderOf(e) // the unpack lane's header (format and recorded times of the entry included)
 		l.hdrStart = append(l.hdrStart, buf.Len())
 		if err := tw.WriteHeader(h); err != nil {
 			return nil
@@ -99,6 +96,8 @@ func init() {
 			rep.Broken = append(rep.Broken, "work dir: "+err.Error())
 			return
 		}
+		// every cut position is compared with the filesystem model, which has umask 022 built in: this lane
+		// runs under 022 whatever -umask says (the unpack lane is the one that honours it)
 		syscall.Umask(022)
 		narch := cfg.N
 		stride := 53
